@@ -285,8 +285,13 @@ static void GC_Recurse(struct GC* gc, var ptr);
 
 static void GC_Mark_And_Recurse(void* _gc, void* ptr) {
   struct GC* gc = _gc;
-  GC_Mark_Item(gc, ptr);
-  GC_Recurse(gc, ptr);
+  /* A registered object is marked and traced once by GC_Mark_Item; only
+  ** objects embedded in a container have to be traced from here. */
+  if (GC_Mem_Ptr(gc, ptr)) {
+    GC_Mark_Item(gc, ptr);
+  } else {
+    GC_Recurse(gc, ptr);
+  }
 }
 
 static void GC_Recurse(struct GC* gc, var ptr) {
